@@ -550,6 +550,16 @@ func (k Keeper) LimitOrderBid(ctx sdk.Context) error {
 				// in any of the case update both user bids and individual auctions
 
 				for _, individualBids := range biddingData {
+					// a limit bid that closed the auction (its locked vault is deleted with it) ends the closure
+					if _, found := k.LiquidationsV2.GetLockedVault(ctx, auction.AppId, auction.LockedVaultId); !found {
+						return nil
+					}
+					// bid on the auction as the earlier bids of this closure left it, not on the copy
+					// read before the loop
+					auction, err := k.GetAuction(ctx, auction.AuctionId)
+					if err != nil {
+						return err
+					}
 					addr, _ := sdk.AccAddressFromBech32(individualBids.BidderAddress)
 					if individualBids.DebtToken.Amount.GTE(auction.DebtToken.Amount) {
 						//User has more tokens than target debt, so their bid will close the auction
